@@ -100,14 +100,8 @@ func (e *c15Enc) binds(b *syntax.BindStms) {
 		e.tok("0")
 		return
 	}
-	n := 0
-	for _, s := range b.List {
-		if s.Id == "*" {
-			e.err = fmt.Errorf("wildcard binding")
-		}
-		n++
-	}
-	e.tok(strconv.Itoa(n))
+	// the compiled List: explicit bindings, the `*` entry, then one synthetic binding per expanded parameter
+	e.tok(strconv.Itoa(len(b.List)))
 	for _, s := range b.List {
 		e.tok(c15Key(s.Id))
 		e.exp(s.Exp)
@@ -558,6 +552,9 @@ func c15Edits() []c15Edit {
 				pp.Calls[j].Binds[k].Exp = fix(pp.Calls[j].Binds[k].Exp)
 			}
 			pp.Calls[j].Disabled = fix(pp.Calls[j].Disabled)
+			if pp.Calls[j].Wild == old {
+				pp.Calls[j].Wild = c.Id
+			}
 		}
 		for k := range pp.Ret {
 			pp.Ret[k].Exp = fix(pp.Ret[k].Exp)
@@ -791,6 +788,94 @@ func c15Edits() []c15Edit {
 		}
 		return "", false, false
 	})
+	sem("wildcard-source", func(rng *rand.Rand, q *gProg) (string, bool, bool) {
+		// `* = MAKE_A` -> `* = MAKE_B` / `* = self`: the expanded parameters are bound to another source
+		type site struct {
+			pp *gPipe
+			c  *gCall
+		}
+		var sites []site
+		for _, pp := range c15ReachablePipes(q) {
+			for j := range pp.Calls {
+				if pp.Calls[j].Wild != "" {
+					sites = append(sites, site{pp, &pp.Calls[j]})
+				}
+			}
+		}
+		if len(sites) == 0 {
+			return "", false, false
+		}
+		st := sites[rng.Intn(len(sites))]
+		cands := []string{}
+		for _, w := range []string{"MAKE_A", "MAKE_B"} {
+			if w != st.c.Wild {
+				cands = append(cands, w)
+			}
+		}
+		hasSelf := 0
+		for _, in := range st.pp.Ins {
+			if in.Name == "wa" || in.Name == "wb" {
+				hasSelf++
+			}
+		}
+		if hasSelf == 2 && st.c.Wild != "self" {
+			cands = append(cands, "self")
+		}
+		old := st.c.Wild
+		st.c.Wild = cands[rng.Intn(len(cands))]
+		return fmt.Sprintf("wildcard binding of call %s in %s: `* = %s` -> `* = %s`", st.c.id(), st.pp.Name, old, st.c.Wild), false, true
+	})
+	sem("callee-retargeted-under-alias", func(rng *rand.Rand, q *gProg) (string, bool, bool) {
+		// `call X_ALT as N` -> `call X as N` (or the reverse): same call name and bindings, another callee
+		// (same parameters, opposite split flag); preferably one that the pipeline already calls elsewhere
+		type site struct {
+			pp  *gPipe
+			j   int
+			dup bool
+		}
+		twin := func(n string) string {
+			if strings.HasSuffix(n, "_ALT") {
+				return strings.TrimSuffix(n, "_ALT")
+			}
+			return n + "_ALT"
+		}
+		var sites, dups []site
+		for _, pp := range c15ReachablePipes(q) {
+			for j := range pp.Calls {
+				c := &pp.Calls[j]
+				if d := q.decl(c.Callee); d == nil || d.Stage == nil || q.decl(twin(c.Callee)) == nil {
+					continue
+				}
+				st := site{pp, j, false}
+				for k := range pp.Calls {
+					if k != j && pp.Calls[k].Callee == twin(c.Callee) {
+						st.dup = true
+					}
+				}
+				sites = append(sites, st)
+				if st.dup {
+					dups = append(dups, st)
+				}
+			}
+		}
+		if len(sites) == 0 {
+			return "", false, false
+		}
+		st := sites[rng.Intn(len(sites))]
+		if len(dups) > 0 && rng.Intn(4) != 0 {
+			st = dups[rng.Intn(len(dups))]
+		}
+		c := &st.pp.Calls[st.j]
+		old := c.Callee
+		id := c.id()
+		c.Callee = twin(old)
+		c.Id = id
+		if c.Id == c.Callee {
+			c.Id = ""
+		}
+		return fmt.Sprintf("call %s of %s (position %d): callee %s -> %s (already called elsewhere in the pipeline: %v)",
+			id, st.pp.Name, st.j, old, c.Callee, st.dup), false, true
+	})
 	return E
 }
 
@@ -881,7 +966,7 @@ func runC15(c *Ctx) {
 		lockRuns = 60
 	}
 	selfCompare := c.Drv.Ask("C15.selfcompare")
-	r.note("regenerated fact c15SelfCompare = %s", selfCompare)
+	r.note("regenerated facts: c15SelfCompare = %s, c15RegisterFirst = %s", selfCompare, c.Drv.Ask("C15.registerfirst"))
 
 	var pairs []*c15Pair
 	dirN := 0
@@ -991,13 +1076,17 @@ func runC15(c *Ctx) {
 				What:  fmt.Sprintf("EquivalentCall is not symmetric (a~b=%v, b~a=%v): %s", gab, gba, pr.desc),
 				Input: input, Impl: []bool{gab, gba}, Broken: "theorem Props.C15.equiv_symm"})
 		}
-		if gab == pr.semantic {
+		if gab == pr.semantic || gba == pr.semantic {
 			what := "a cosmetic edit is refused: "
 			if pr.semantic {
 				what = "a semantic edit is accepted as equivalent: "
 			}
-			r.violate(Violation{Kind: "property", Key: "C15:wrong-verdict:" + pr.edit, What: what + pr.desc,
-				Input: input, Impl: gab, Expect: !pr.semantic, Model: "with the lookup fixed the model says " + f[1],
+			dir := "original.EquivalentCall(edited)"
+			if gab != pr.semantic {
+				dir = "edited.EquivalentCall(original)"
+			}
+			r.violate(Violation{Kind: "property", Key: "C15:wrong-verdict:" + pr.edit, What: what + pr.desc + " [" + dir + "]",
+				Input: input, Impl: []bool{gab, gba}, Expect: !pr.semantic, Model: "with the lookup fixed the model says " + f[1],
 				Broken: "theorem Props.C15.equiv_iff_sem_eq"})
 		}
 		if fmt.Sprint(!pr.semantic) != f[1] {
@@ -1073,6 +1162,7 @@ func c15EndToEnd(c *Ctx, rt *core.Runtime, pr *c15Pair, n int) {
 	}
 	r.hist("e2e-invoked")
 	// the first mrp still holds the lock: a second attach for writing must fail, with either version
+	before := c15RegistrySet()
 	if p2, err := c15Attach(rt, psdir, pr.a, false); err == nil {
 		r.violate(Violation{Kind: "property", Key: "C15:second-writer-attached",
 			What: "ReattachToPipestance for writing succeeded while the invoking runtime holds _lock", Input: input})
@@ -1086,6 +1176,26 @@ func c15EndToEnd(c *Ctx, rt *core.Runtime, pr *c15Pair, n int) {
 		if _, err := os.Stat(filepath.Join(psdir, "_lock")); err != nil {
 			r.violate(Violation{Kind: "property", Key: "C15:failed-attach-removed-lock",
 				What: "a refused attach removed the lock file of the live holder", Input: input})
+		}
+		// the refused mrp now dies the way cmd/mrp does (util.DieIf -> Suicide -> every handler it
+		// registered runs); the holder's lock must survive and a third mrp must still be refused
+		left := c15NewObjects(before)
+		c15Die(left)
+		_, lockErr := os.Stat(filepath.Join(psdir, "_lock"))
+		p3, err3 := c15Attach(rt, psdir, pr.a, false)
+		if lockErr != nil || err3 == nil {
+			r.violate(Violation{Kind: "property", Key: "C15:refused-attacher-removed-lock",
+				What: fmt.Sprintf("history: mrp#1 invokes and holds the lock; mrp#2's attach for writing is refused (PipestanceLockedError) and "+
+					"mrp#2 exits through the signal-handler path (it had left %d object(s) registered with util.RegisterSignalHandler); "+
+					"afterwards _lock exists = %v and mrp#3's attach for writing succeeded = %v while mrp#1 is still alive",
+					len(left), lockErr == nil, err3 == nil),
+				Input: map[string]interface{}{"history": "L1,L2(refused),S2,L3", "program": pr.a.text},
+				Impl:  map[string]interface{}{"lock_file_exists": lockErr == nil, "third_attach_succeeded": err3 == nil},
+				Expect: "lock file kept, third attach refused", Broken: "theorem Props.C15.at_most_one_writer"})
+			if err3 == nil {
+				p3.Unlock()
+			}
+			ps.Lock() // restore the holder's lock for the rest of the scenario
 		}
 	}
 	// read-only attach is allowed while locked
@@ -1134,32 +1244,51 @@ func c15LockHistory(c *Ctx, rt *core.Runtime, pr *c15Pair, n int) {
 	r := c.Res
 	psdir := filepath.Join(c.Scratch, fmt.Sprintf("lk%06d", n))
 	defer os.RemoveAll(psdir)
+	before := c15RegistrySet()
 	ps0, err := rt.InvokePipeline(pr.a.inv, filepath.Join(pr.a.dir, "invocation.mro"), "ps", psdir,
 		[]string{pr.a.dir}, "verif", nil, nil)
 	if err != nil {
 		return
 	}
-	// process 0 holds the lock after invocation
+	// simulated mrp processes 0..3; process 0 invoked and holds the lock.  objs[p] = what p has
+	// registered with util.RegisterSignalHandler (also when its attach was refused)
+	const nproc = 4
 	held := map[int]*core.Pipestance{0: ps0}
-	var ops []string
-	var got []string
-	ops = append(ops, "L0")
-	got = append(got, "1")
-	nproc := 3
-	for step, m := 0, 6+c.Rng.Intn(10); step < m; step++ {
+	objs := map[int][]util.HandlerObject{0: c15NewObjects(before)}
+	ops := []string{"L0"}
+	got := []string{"1"}
+	lockExists := func() bool {
+		_, err := os.Stat(filepath.Join(psdir, "_lock"))
+		return err == nil
+	}
+	for step, m := 0, 8+c.Rng.Intn(12); step < m; step++ {
 		p := c.Rng.Intn(nproc)
-		if h, ok := held[p]; ok {
-			if c.Rng.Intn(2) == 0 {
-				h.Unlock()
-				ops = append(ops, fmt.Sprintf("U%d", p))
-			} else {
-				h.HandleSignal(os.Interrupt)
-				ops = append(ops, fmt.Sprintf("S%d", p))
-			}
+		h, holds := held[p]
+		switch {
+		case holds && c.Rng.Intn(2) == 0:
+			h.Unlock()
+			objs[p] = nil
 			delete(held, p)
+			ops = append(ops, fmt.Sprintf("U%d", p))
 			got = append(got, "1")
-		} else {
+		case holds || c.Rng.Intn(3) == 0:
+			// p dies through the signal-handler path (holder or not, attached before or not)
+			had := lockExists()
+			c15Die(objs[p])
+			objs[p] = nil
+			delete(held, p)
+			ops = append(ops, fmt.Sprintf("S%d", p))
+			got = append(got, "1")
+			if !holds && had && !lockExists() {
+				r.violate(Violation{Kind: "property", Key: "C15:refused-attacher-removed-lock",
+					What:  fmt.Sprintf("process %d, which does not hold the pipestance (its attach was refused), died through the signal-handler path and removed the live holder's _lock", p),
+					Input: map[string]interface{}{"history": strings.Join(ops, ","), "program": pr.a.text},
+					Broken: "theorem Props.C15.at_most_one_writer"})
+			}
+		default:
+			snap := c15RegistrySet()
 			np, err := c15Attach(rt, psdir, pr.a, false)
+			objs[p] = append(objs[p], c15NewObjects(snap)...)
 			ops = append(ops, fmt.Sprintf("L%d", p))
 			if err == nil {
 				held[p] = np
@@ -1170,20 +1299,27 @@ func c15LockHistory(c *Ctx, rt *core.Runtime, pr *c15Pair, n int) {
 		}
 		if len(held) > 1 {
 			r.violate(Violation{Kind: "property", Key: "C15:two-writers", What: "two runtimes hold the same pipestance for writing",
-				Input: strings.Join(ops, ","), Broken: "theorem Props.C15.at_most_one_writer"})
+				Input: map[string]interface{}{"history": strings.Join(ops, ","), "program": pr.a.text},
+				Broken: "theorem Props.C15.at_most_one_writer"})
+			break
 		}
 	}
-	_, lockErr := os.Stat(filepath.Join(psdir, "_lock"))
-	got = append(got, fmt.Sprint(lockErr == nil), fmt.Sprint(len(held)))
+	got = append(got, fmt.Sprint(lockExists()), fmt.Sprint(len(held)))
 	rep := c.Drv.Ask("C15.lock", strings.Join(ops, ","))
 	r.count("lock\x00"+strings.Join(ops, ","), true)
 	r.hist("lock-histories")
 	if rep != strings.Join(got, " ") {
-		r.violate(Violation{Kind: "correspondence", Key: "C15:lock-model-mismatch", What: "Lock/Unlock/HandleSignal history differs from the Lean lock model",
+		r.violate(Violation{Kind: "correspondence", Key: "C15:lock-model-mismatch", What: "Lock/Unlock/HandleSignal history differs from the Lean lock model (under the regenerated fact c15RegisterFirst)",
 			Input: strings.Join(ops, ","), Impl: strings.Join(got, " "), Model: rep, Broken: "correspondence C15.lock (Martian.Equiv.lockStep)"})
 	}
-	for _, h := range held {
+	for p, h := range held {
 		h.Unlock()
+		objs[p] = nil
+	}
+	for _, os := range objs {
+		for _, o := range os {
+			util.UnregisterSignalHandler(o)
+		}
 	}
 }
 
@@ -1230,4 +1366,33 @@ func c15Corpus(c *Ctx) []*c15Pair {
 			desc: "corpus pair " + e.Name(), a: a, b: b})
 	}
 	return out
+}
+
+// ---- playing "this process dies" for one simulated mrp ----
+
+func c15RegistrySet() map[util.HandlerObject]bool {
+	m := map[util.HandlerObject]bool{}
+	for _, o := range util.VerifSignalHandlerObjects() {
+		m[o] = true
+	}
+	return m
+}
+
+// objects registered since the snapshot (what the simulated process registered)
+func c15NewObjects(before map[util.HandlerObject]bool) []util.HandlerObject {
+	var out []util.HandlerObject
+	for _, o := range util.VerifSignalHandlerObjects() {
+		if !before[o] {
+			out = append(out, o)
+		}
+	}
+	return out
+}
+
+// what util.Suicide / the signal goroutine does for the objects of one process, then the process is gone
+func c15Die(objs []util.HandlerObject) {
+	for _, o := range objs {
+		o.HandleSignal(os.Interrupt)
+		util.UnregisterSignalHandler(o)
+	}
 }
